@@ -164,6 +164,12 @@ func (e *Enc) call(fr *Frame, instr ssa.Instruction, c *ssa.CallCommon, _ types.
 	} else if fr.isTop {
 		e.recordRet(cs, nil)
 	}
+	if fr.isTop {
+		if k := "ghost:called:" + cs.name; e.keySorts[k] != "" {
+			e.get(fr.curState, k, SBool)
+			fr.curState.m[k] = True
+		}
+	}
 	return r
 }
 
